@@ -15,6 +15,8 @@
  *    at:M.accept4#0=LIMIT        the process is at its descriptor limit from that call on: the call
  *                                fails with EMFILE, and so does every later descriptor-creating call
  *                                for as long as at least as many descriptors are open as at that moment
+ *    clobber;at:...              the allocator's free() sets errno to EBADF after freeing (libuv must not let
+ *                                that change the error code it reports)
  * In record mode (plan "-") nothing fails and every point is logged.
  * A run that passes more than FI_SPIN fault points is cut off (status SPIN).
  */
@@ -77,6 +79,7 @@ static volatile int fi_on;          /* injection + counting window */
 static volatile int fi_armed;       /* armed region of a unit scenario */
 static const char* volatile fi_only; /* armed region: only points of this name consume answers */
 static int fi_record;
+static int fi_clobber;              /* plan token "clobber": an application allocator whose free() modifies errno */
 static int fi_fired;                /* number of injected answers */
 static char fi_last[64];            /* last injected point */
 static const char* volatile fi_api = "-";  /* API call in progress (loop thread) */
@@ -251,6 +254,8 @@ static int fi_parse(const char* plan) {
   for (tok = strtok_r(copy, ";", &save); tok; tok = strtok_r(NULL, ";", &save)) {
     char cls, name[64], kind[32]; int idx;
     struct fault* f;
+    if (!strcmp(tok, "clobber")) { fi_clobber = 1; continue; }
+    if (!strcmp(tok, "record")) { fi_record = 1; continue; }
     if (sscanf(tok, "at:%c.%63[^#]#%d=%31s", &cls, name, &idx, kind) != 4) return -1;
     if (fi_nfaults >= MAXFAULTS) return -1;
     f = &fi_faults[fi_nfaults++];
@@ -295,6 +300,7 @@ static void* fi_realloc(void* q, size_t n) {
 static void fi_free(void* p) {
   if (p) fi_live--;
   free(p);
+  if (fi_clobber) errno = EBADF;
 }
 
 /* ---- wrapped calls ------------------------------------------------------ */
